@@ -6,7 +6,7 @@
    matrices are universally quantified. *)
 From Coq Require Import List Arith Bool String.
 From BV Require Import Algebra.Mat Algebra.OpLang Algebra.PotLang Algebra.OpProofs Algebra.PotProofs.
-From BV Require Import Algebra.DiscLang Algebra.DiscProofs Algebra.PotAlgebra.
+From BV Require Import Algebra.DiscLang Algebra.DiscProofs Algebra.PotAlgebra Algebra.GfLang Algebra.GfProofs.
 From BVgen Require Import OpClasses.
 Import ListNotations.
 
@@ -78,48 +78,26 @@ Theorem C14_apply_function : forall (A : Type) (r0 r1 : A) (radd rmul : A -> A -
 Proof. exact apply_function. Qed.
 Print Assumptions C14_apply_function.
 
-(* every attribute / method name used on self or on an operand in the five algebra files resolves against the
-   class hierarchy, except the three recorded ones (all in potential_operator.py) *)
-Theorem C14_methods_resolve : forall r : string * string * string * string,
-  In r unresolved -> In r known_unresolved.
-Proof. exact methods_resolve. Qed.
+(* every attribute / method name used on self or on an operand in the five algebra files (433 uses) resolves against
+   the class hierarchy; the list of unresolved names regenerated from the current source is empty (on the pinned tree
+   f71eeee it had three entries in potential_operator.py, see Algebra/PotProofs.v) *)
+Theorem C14_methods_resolve : unresolved = [].
+Proof. exact all_names_resolve. Qed.
 Print Assumptions C14_methods_resolve.
-
-(* the pinned tree: no sum of potential operators can be built, whatever the operands ... *)
-Theorem C14_potential_sum_refuted : forall (A : Type) (r0 r1 : A) (ropp rinv : A -> A)
-    (patoms : nat -> nat * nat * nat * M A) (a b : upot A) (o : pop A),
-  pelab A r0 r1 ropp rinv patoms PB_pinned classes_pinned (UPAdd a b) <> Ok o.
-Proof. exact pinned_sum_never_builds. Qed.
-Print Assumptions C14_potential_sum_refuted.
-
-(* ... a sum of an operator with itself raises AttributeError ... *)
-Theorem C14_potential_sum_attribute_error : forall (A : Type) (r0 r1 : A) (ropp rinv : A -> A)
-    (patoms : nat -> nat * nat * nat * M A) (i : nat),
-  pelab A r0 r1 ropp rinv patoms PB_pinned classes_pinned (UPAdd (UPAtom i) (UPAtom i)) = Err AttributeError.
-Proof. exact pinned_compatible_sum_attribute_error. Qed.
-Print Assumptions C14_potential_sum_attribute_error.
-
-(* ... and so does .evaluation_points of a scaled potential operator *)
-Theorem C14_scaled_potential_points_refuted : forall (A : Type) (r0 r1 : A) (ropp rinv : A -> A)
-    (patoms : nat -> nat * nat * nat * M A) (i : nat) (alpha : A),
-  bind (pelab A r0 r1 ropp rinv patoms PB_pinned classes_pinned (UPScalL alpha (UPAtom i)))
-       (fun o : pop A => pprop A patoms PB_pinned o "evaluation_points"%string) = Err AttributeError.
-Proof. exact pinned_scaled_points_attribute_error. Qed.
-Print Assumptions C14_scaled_potential_points_refuted.
 
 (* discrete operators: for every conformable tree of Scaled / Sum / Product operators over arbitrary matrices, the
    constructors accept it, to_dense is the matrix expression and _matvec(x) = to_dense() x  (matmat: column by column) *)
 Theorem C14_discrete_algebra : forall (A : Type) (r0 r1 : A) (radd rmul rsub : A -> A -> A) (ropp : A -> A),
   ring_theory r0 r1 radd rmul rsub ropp eq -> forall e : dspec A, swf A r0 radd rmul e = true ->
-  dwf A (build A r0 ScaledDiscreteOperator SumDiscreteOperator ProductDiscreteOperator e) = true /\
-  dshape A (build A r0 ScaledDiscreteOperator SumDiscreteOperator ProductDiscreteOperator e) =
+  dwf A (DiscLang.build A r0 ScaledDiscreteOperator SumDiscreteOperator ProductDiscreteOperator e) = true /\
+  dshape A (DiscLang.build A r0 ScaledDiscreteOperator SumDiscreteOperator ProductDiscreteOperator e) =
     (rows (sden A r0 radd rmul e), cols (sden A r0 radd rmul e)) /\
-  meq A (dense A r0 radd rmul (build A r0 ScaledDiscreteOperator SumDiscreteOperator ProductDiscreteOperator e))
+  meq A (dense A r0 radd rmul (DiscLang.build A r0 ScaledDiscreteOperator SumDiscreteOperator ProductDiscreteOperator e))
         (sden A r0 radd rmul e) /\
   (forall x : M A, rows x = cols (sden A r0 radd rmul e) ->
-   meq A (matvec A r0 radd rmul (build A r0 ScaledDiscreteOperator SumDiscreteOperator ProductDiscreteOperator e) x)
+   meq A (matvec A r0 radd rmul (DiscLang.build A r0 ScaledDiscreteOperator SumDiscreteOperator ProductDiscreteOperator e) x)
          (mmul A r0 radd rmul
-               (dense A r0 radd rmul (build A r0 ScaledDiscreteOperator SumDiscreteOperator ProductDiscreteOperator e)) x)).
+               (dense A r0 radd rmul (DiscLang.build A r0 ScaledDiscreteOperator SumDiscreteOperator ProductDiscreteOperator e)) x)).
 Proof. exact discrete_algebra. Qed.
 Print Assumptions C14_discrete_algebra.
 
@@ -145,32 +123,34 @@ Theorem C14_blocked_pack_unpack : forall (X : Type),
 Proof. exact (fun X => conj (unpack_pack X) (pack_unpack X)). Qed.
 Print Assumptions C14_blocked_pack_unpack.
 
-(* grid_function_list_from_projections of the current source recovers the projection pieces whenever it slices by the
-   dual spaces or the primal and dual dof counts coincide *)
+(* grid_function_list_from_projections of the current source recovers the projection pieces, for any dof counts *)
 Theorem C14_blocked_unpack_projections : forall (X : Type) (dim : nat -> nat) (spaces duals : list nat)
   (ps : list (list X)), map (@List.length X) ps = map dim duals ->
-  slice_projections_by = DimDual \/ map dim spaces = map dim duals ->
   unpack_projections X slice_projections_by dim spaces duals (pack X ps) = ps.
-Proof. exact cur_unpack_projections. Qed.
+Proof. exact cur_unpack_projections_now. Qed.
 Print Assumptions C14_blocked_unpack_projections.
 
-(* pinned tree (slices by the primal dof counts): P1 range with 6 dofs and DP0 dual with 8 dofs lose two entries *)
-Theorem C14_blocked_unpack_projections_refuted :
+Theorem C14_blocked_recipe : slice_projections_by = DimDual /\ blocked_add_foreign = AddNotImplemented.
+Proof. exact cur_recipe. Qed.
+Print Assumptions C14_blocked_recipe.
+
+(* why the dual selector is needed: slicing by the primal dof counts (the recipe of the pinned tree) loses entries as
+   soon as range and dual dof counts differ (6 vs 8) *)
+Theorem C14_blocked_unpack_primal_slicing_refuted :
   exists (dim : nat -> nat) (spaces duals : list nat) (ps : list (list nat)),
     map (@List.length nat) ps = map dim duals /\
     unpack_projections nat DimSpace dim spaces duals (pack nat ps) <> ps.
 Proof. exact unpack_projections_refuted. Qed.
-Print Assumptions C14_blocked_unpack_projections_refuted.
+Print Assumptions C14_blocked_unpack_primal_slicing_refuted.
 
-(* potential algebra of the CURRENT source, conditional on its names resolving (false on the pinned tree, where the
-   refutations above apply; true once docs/fixes/c14_potential_sum.diff is in): a well-typed expression built with
-   + - unary- scalar* keeps space / component count / evaluation points and, applied to a grid function, evaluates to
-   (matrix expression) * coefficients; an ill-typed one raises ValueError *)
+(* potential algebra of the current source (its names resolve: [potential_clean] computes to true): a well-typed
+   expression built with + - unary- scalar* keeps space / component count / evaluation points and, applied to a grid
+   function, evaluates to (matrix expression) * coefficients; an ill-typed one raises ValueError *)
 Theorem C14_potential_algebra : forall (A : Type) (r0 r1 : A) (radd rmul rsub : A -> A -> A) (ropp : A -> A),
   ring_theory r0 r1 radd rmul rsub ropp eq -> forall (rinv : A -> A) (invmass mass : nat -> nat -> M A)
   (patoms : nat -> nat * nat * nat * M A) (prow : nat -> nat -> nat) (dim : nat -> nat),
   (forall i, let '(s, c, p) := fst (patoms i) in rows (snd (patoms i)) = prow c p /\ cols (snd (patoms i)) = dim s) ->
-  potential_clean = true -> forall e : upot A,
+  forall e : upot A,
   match ptype_of A patoms e with
   | Some (s, c, p) =>
       exists o, pelab A r0 r1 ropp rinv patoms PB potential_classes e = Ok o /\
@@ -181,5 +161,23 @@ Theorem C14_potential_algebra : forall (A : Type) (r0 r1 : A) (radd rmul rsub : 
                             meq A m (mmul A r0 radd rmul (pden A r1 radd rmul ropp patoms e) coef)
   | None => pelab A r0 r1 ropp rinv patoms PB potential_classes e = Err ValueError
   end.
-Proof. exact potential_algebra. Qed.
+Proof. exact (fun A r0 r1 radd rmul rsub ropp Rth rinv invmass mass patoms prow dim D =>
+                potential_algebra A r0 r1 radd rmul rsub ropp Rth rinv invmass mass patoms prow dim D potential_clean_now). Qed.
 Print Assumptions C14_potential_algebra.
+
+(* GridFunction arithmetic of the current source: for every expression built with + - unary- scalar* (either side) and /
+   over grid functions in coefficient or projection representation with arbitrary dual spaces: ValueError iff the spaces
+   differ; otherwise the result lives in the common space and its coefficients are the vector expression *)
+Theorem C14_grid_function_arithmetic : forall (A : Type) (r0 r1 : A) (radd rmul rsub : A -> A -> A) (ropp : A -> A),
+  ring_theory r0 r1 radd rmul rsub ropp eq -> forall (rinv : A -> A) (dim : nat -> nat) (ncol : nat)
+  (invmass mass : nat -> nat -> M A),
+  (forall r d : nat, rows (invmass r d) = dim r /\ cols (invmass r d) = dim d) ->
+  forall e : ugf A, atoms_wf A dim ncol e ->
+  match gtype A e with
+  | Some s => exists g, gfeval A r0 r1 radd rmul ropp rinv invmass mass GF e = Ok g /\ g_space g = s /\
+                        wf A dim ncol g /\
+                        meq A (coefficients A r0 radd rmul invmass g) (gcoef A r0 r1 radd rmul ropp rinv invmass e)
+  | None => gfeval A r0 r1 radd rmul ropp rinv invmass mass GF e = Err ValueError
+  end.
+Proof. exact gf_arithmetic. Qed.
+Print Assumptions C14_grid_function_arithmetic.
